@@ -107,7 +107,7 @@ def read_sinex_comments(file):
             if line.startswith('+FILE/COMMENT'):
                 go = True
             if go:
-                comments.append(line.strip())
+                comments.append(line.rstrip())
             if line.startswith('-FILE/COMMENT'):
                 go = False
 
